@@ -121,6 +121,9 @@ class ProgGen:
 		self.fixed_calls: dict = {}
 		self.generics: dict = {}
 		self.exc: str | None = None
+		self.p_generic = 0.3
+		self.generic_class_only = False   # module families: the defining module leaves the first instantiation to its importers
+		self.force_op: int | None = None   # diagnostics: container probe with one operation kind
 
 	# ---- utils ------------------------------------------------------------------------
 	def on(self, flag: str) -> bool:
@@ -365,8 +368,14 @@ class ProgGen:
 	def e_float(self, cx: Ctx, t, d: int):
 		if d <= 0:
 			return self.leaf(cx, T_FLOAT)
-		c = self.rnd.randint(0, 9)
-		if c <= 3:
+		c = self.rnd.randint(0, 10)
+		if c == 10 and self.on('int-true-div'):
+			# same-precedence chains whose links have different result types: int * int / int is a float (outside C01's domain: int/int true division)
+			cx.tags.add('int-true-div')
+			ints = [self.wrap(self.e_int(cx, T_INT, 0), P_MUL + 1) for _ in range(3)]
+			div = self.pick(['3', '5', '7'])
+			return (self.pick([f'{ints[0]} * {ints[1]} / {div}', f'{ints[0]} % {div} / {div}', f'{ints[0]} * {ints[1]} * {ints[2]} / {div}', f'{ints[0]} / {div}', f'{ints[0]} / {div} * {ints[1]}']), P_MUL)
+		if c <= 3 or c == 10:
 			return self.leaf(cx, T_FLOAT)
 		if c <= 6:
 			op, p = self.pick([('+', P_ADD), ('-', P_ADD), ('*', P_MUL)])
@@ -925,6 +934,111 @@ class ProgGen:
 		self.lines += [f'def {name}({sig}) -> {py_ty(ret)}:'] + body + ['']
 		self.funcs.append((name, params, ret, tags))
 
+	def gen_container_func(self) -> None:
+		"""Container/str operation probe: a random sequence of list, dict and str operations (each guarded so that it stays inside the
+		domain) whose every result is appended to the returned list — nothing the emitted code computes stays unobserved."""
+		r = self.rnd
+		name = f'f{len(self.funcs)}'
+		xs, d, s_, n = (self.fresh('a') for _ in range(4))
+		params = [(xs, ('list', T_INT), None), (d, ('dict', T_STR, T_INT), None), (s_, T_STR, None), (n, T_INT, None)]
+		tags = {'container-probe'}
+		out = self.fresh('v')
+		body = [f'\t{out}: list[int] = []']
+
+		def key() -> str:
+			return self.pick(["'a'", "'b'", "'zz'"])
+
+		def small() -> str:
+			return self.pick([n, '1', '7', f'{n} + 1', f'int(len({s_}))'])
+
+		def op() -> list[str]:
+			c = r.randint(0, 33) if self.force_op is None else self.force_op
+			v = self.fresh()
+			k = key()
+			if c == 0:
+				return [f'\tif len({xs}) > 0:', f'\t\t{v} = {xs}.pop(0)', f'\t\t{out}.append({v})']
+			if c == 1:
+				return [f'\tif len({xs}) > 1:', f'\t\t{v} = {xs}.pop(1)', f'\t\t{out}.append({v})']
+			if c == 2:
+				return [f'\tif len({xs}) > 0:', f'\t\t{out}.append({xs}.pop())']
+			if c == 3:
+				return [f'\t{xs}.insert(0, {small()})', f'\t{out}.append({xs}[0])']
+			if c == 4:
+				return [f'\tif len({xs}) > 0:', f'\t\t{xs}.insert(1, {small()})', f'\t\t{out}.append({xs}[1])']
+			if c == 5:
+				return [f'\t{v} = {xs}.copy()', f'\t{v}.append({small()})', f'\t{out}.append(len({v}) * 10 + len({xs}))']
+			if c == 6:
+				return [f'\tif len({xs}) > 0:', f'\t\t{out}.append({xs}[len({xs}) - 1])']
+			if c == 7:
+				return [f'\tif len({xs}) > 1:', f'\t\t{v} = {xs}[:len({xs}) - 1]', f'\t\t{out}.append(len({v}) * 100 + {v}[0])']
+			if c == 8:
+				return [f'\tif len({xs}) > 1:', f'\t\t{v} = {xs}[1:]', f'\t\t{out}.append({v}[0])']
+			if c == 9:
+				return [f'\t{xs}.append({small()})', f'\t{out}.append(len({xs}))']
+			if c == 10:
+				return [f'\t{out}.append(int({small()} in {xs}) * 2 + int({small()} not in {xs}))']
+			if c == 11:
+				return [f'\tif {k} in {d}:', f'\t\t{v} = {d}.pop({k})', f'\t\t{out}.append({v})']
+			if c == 12:
+				return [f'\tif {k} in {d}:', f'\t\tdel {d}[{k}]', f'\t{out}.append(len({d}))']
+			if c == 13:
+				return [f'\t{v} = {d}.copy()', f'\t{v}[{k}] = {small()}', f'\t{out}.append(len({v}) * 10 + len({d}))']
+			if c == 14:
+				return [f'\t{v} = list({d}.keys())', f'\t{out}.append(len({v}))']
+			if c == 15:
+				return [f'\t{v} = list({d}.values())', f'\tif len({v}) > 0:', f'\t\t{out}.append({v}[0])']
+			if c == 16:
+				return [f'\tif {k} in {d}:', f'\t\t{d}[{key()}] = {d}[{k}] + 1', f'\t\t{d}[{k}] += 5', f'\t\t{out}.append({d}[{k}])']
+			if c == 17:
+				k2, v2 = self.fresh('k'), self.fresh('x')
+				return [f'\tfor {k2}, {v2} in {d}.items():', f'\t\t{out}.append(len({k2}) * 100 + {v2})']
+			if c == 18:
+				k2, v2 = self.fresh('k'), self.fresh('x')
+				return [f'\t{v} = [{v2} + len({k2}) for {k2}, {v2} in {d}.items()' + self.pick(['', f' if {v2} > 0']) + ']', f'\t{out}.append(len({v}))', f'\tif len({v}) > 0:', f'\t\t{out}.append({v}[0])']
+			if c == 19:
+				v2 = self.fresh('x')
+				return [f'\t{v} = [{v2} * 2 for {v2} in {d}.values()]', f'\tif len({v}) > 0:', f'\t\t{out}.append({v}[0])']
+			if c == 20:
+				k2 = self.fresh('k')
+				return [f'\t{v} = {{{k2}: len({k2}) for {k2} in {d}.keys()}}', f'\t{out}.append(len({v}))']
+			if c == 21:
+				return [f'\tif len({s_}) > 0:', f'\t\t{v} = {s_}[0:1] + {s_}[len({s_}) - 1:]', f'\t\t{out}.append(len({v}) + int({v} == {self.pick(["\'aa\'", "\'ab\'", "\'xx\'"])}))']
+			if c == 22:
+				return [f'\tif len({s_}) > 1:', f'\t\t{v} = {s_}[1:len({s_}) - 1]', f'\t\t{out}.append(len({v}))']
+			if c == 23:
+				return [f'\t{v} = {s_} + {s_}', f'\t{out}.append(len({v}))']
+			if c == 24:
+				return [f"\t{out}.append(int({s_} < 'b') + int({s_} == 'ab') * 2 + int({s_} != 'x') * 4)"]
+			if c == 25:
+				return [f"\t{out}.append({s_}.find('a') + {s_}.rfind('a') * 10)"]
+			if c == 26:
+				return [f"\tif len({s_}) > 1:", f"\t\t{out}.append({s_}.find('a', 1))"]
+			if c == 27:
+				return [f"\t{out}.append(int({s_}.startswith('a')) + int({s_}.endswith('b')) * 2)"]
+			if c == 28:
+				return [f'\t{out}.append(min({n}, {small()}) + max({n}, 3) * 10 + abs({n} - 5) * 100)']
+			if c == 29:
+				return [f'\t{out}.append(1 if {n} > 5 else 2 if {n} > 2 else 3)']
+			if c == 30 and self.on('list-comp'):
+				x2, y2 = self.fresh('x'), self.fresh('y')
+				return [f'\t{v} = [[{x2} * {y2} for {y2} in {xs}] for {x2} in {xs}]', f'\t{out}.append(len({v}))', f'\tif len({v}) > 0:', f'\t\t{out}.append({v}[len({v}) - 1][0])']
+			if c == 31:
+				return [f'\t{d}.clear()' if self.chance(0.3) else f'\t{xs}.clear()', f'\t{out}.append(len({d}) * 10 + len({xs}))']
+			if c == 32:
+				return [f'\t{n} {self.pick(["*=", "-=", "^=", "|=", "&=", "+="])} {self.pick(["3", "5", "6"])}', f'\t{out}.append({n})']
+			i2 = self.fresh('i')
+			return [f'\t{i2} = 0', f'\twhile True:', f'\t\t{i2} += 1', f'\t\tif {i2} > {self.pick(["3", "5"])}:', f'\t\t\tbreak', f'\t\tif {i2} % 2 == 0:', f'\t\t\tcontinue', f'\t\t{out}.append({i2})']
+
+		for _ in range(r.randint(3, 7)):
+			body += op()
+		body.append(f'\treturn {out}')
+		sig = ', '.join(f'{p}: {py_ty(t)}' for p, t, _ in params)
+		self.lines += [f'def {name}({sig}) -> list[int]:'] + body + ['']
+		self.funcs.append((name, params, ('list', T_INT), tags))
+		ds = [{'a': 5, 'b': 0}, {}, {'b': -3, 'zz': 1}, {'a': -1}]
+		xss = [[], [1], [0, 2], [3, -1, 4]]
+		self.fixed_calls[name] = [[self.pick(xss), self.pick(ds), self.pick(['a', 'b', '', 'ab', 'xaab']), self.pick([-1, 0, 2, 3, 6])] for _ in range(5)]
+
 	def exc_class(self, cx: Ctx) -> str:
 		"""RuntimeError or the program's own subclass of it (raise and except sites choose independently: a handler for the subclass lets the base through)."""
 		if self.exc and self.chance(0.5):
@@ -935,14 +1049,24 @@ class ProgGen:
 	def gen_generic(self) -> None:
 		"""A user generic class and a function that instantiates it with several type arguments in one body: attribute / method types
 		depend on the receiver's type arguments, not on the class alone."""
-		r = self.rnd
+		self.gen_generic_func(self.gen_generic_class())
+
+	def gen_generic_class(self) -> str:
 		k = len(self.generics)
 		g, tv = f'G{k}', f'T_G{k}'
 		self.generics[g] = tv
+		self.uses_callable = True
 		self.lines += [f"{tv} = TypeVar('{tv}')", '', f'class {g}(Generic[{tv}]):', f'\tg{k}0: {tv}', f'\tg{k}1: list[{tv}]', '',
 			f'\tdef __init__(self, a0: {tv}) -> None:', f'\t\tself.g{k}0 = a0', f'\t\tself.g{k}1 = [a0]', '',
 			f'\tdef mg{k}0(self) -> {tv}:', f'\t\treturn self.g{k}0', '',
-			f'\tdef mg{k}1(self, q1: {tv}) -> list[{tv}]:', f'\t\tself.g{k}1.append(q1)', f'\t\treturn self.g{k}1', '']
+			f'\tdef mg{k}1(self, q1: {tv}) -> list[{tv}]:', f'\t\tself.g{k}1.append(q1)', f'\t\treturn self.g{k}1', '',
+			f'\tdef mg{k}2(self, q1: Callable[[{tv}], int]) -> int:', f'\t\treturn q1(self.g{k}0) + 1', '']
+		return g
+
+	def gen_generic_func(self, g: str) -> None:
+		r = self.rnd
+		k = int(g[1:])
+		self.uses_callable = True
 		name = f'f{len(self.funcs)}'
 		pa, pb, pc = self.fresh('a'), self.fresh('a'), self.fresh('a')
 		params = [(pa, T_INT, None), (pb, T_STR, None), (pc, T_FLOAT, None)]
@@ -963,7 +1087,7 @@ class ProgGen:
 			objs.append((o, t))
 			for _ in range(r.randint(0, 2)):
 				o2, t2 = self.pick(objs)
-				c = r.randint(0, 4)
+				c = r.randint(0, 5)
 				v = self.fresh()
 				lit = {'int': '3', 'str': "'q'", 'float': pc}[t2]
 				def text(x: str) -> str:
@@ -984,10 +1108,20 @@ class ProgGen:
 				elif c == 3:
 					body.append(f'\t{v} = len({o2}.mg{k}1({lit}))')
 					acc.append(f'str({v})')
+				elif c == 5:
+					# the lambda's parameter type is the receiver's type argument
+					pl = self.fresh('p')
+					fn = {'int': f'{pl} + 2', 'str': f'len({pl})', 'float': f'int({pl}) + 1'}[t2]
+					body.append(f'\t{v} = {o2}.mg{k}2(lambda {pl}: {fn})')
+					acc.append(f'str({v})')
 				else:
 					op = {'int': f'{o2}.g{k}0 + 2', 'str': f"{o2}.g{k}0 + 'y'", 'float': f'{o2}.g{k}0 + {pc}'}[t2]
 					body.append(f'\t{v} = {op}')
 					acc.append(text(v))
+		o2, t2 = self.pick(objs)
+		pl, v = self.fresh('p'), self.fresh()
+		body.append(f'\t{v} = {o2}.mg{k}2(lambda {pl}: ' + {'int': f'{pl} + 2', 'str': f'len({pl})', 'float': f'int({pl}) + 1'}[t2] + ')')
+		acc.append(f'str({v})')
 		o2, t2 = self.pick(objs)
 		acc.append(f'{o2}.mg{k}0()' if t2 == 'str' else (f'str({o2}.mg{k}0())' if t2 == 'int' else f'str(int({o2}.mg{k}0()))'))
 		body.append("\treturn " + " + ',' + ".join(acc))
@@ -1055,9 +1189,9 @@ class ProgGen:
 			if c == 5:
 				return ((f'{w(P_BAND)} & 3', P_BAND), 'int')
 			if c == 6:
-				return ((f'{w(P_CMP + 1)} == {self.pick(["0", "1", "5"])}', P_CMP), 'bool')
+				return ((f'{w(P_CMP + 1)} {self.pick(["==", "!=", "<", ">="])} {self.pick(["0", "1", "5", f"({n} - 1)", f"int({b})", f"({n} & 3)"])}', P_CMP), 'bool')
 			if c == 7:
-				return ((f'{n} > {w(P_CMP + 1)}', P_CMP), 'bool')
+				return ((f'{self.pick([n, f"({n} + 1)", f"({n} | 1)"])} > {w(P_CMP + 1)}', P_CMP), 'bool')
 			if c == 8:
 				return ((f'7 if {w(P_TERN + 1)} else 3', P_TERN), 'int')
 			if c == 9:
@@ -1086,7 +1220,9 @@ class ProgGen:
 		elems = []
 		for _ in range(r.randint(3, 5)):
 			e, t = (inner_int(), 'int') if self.chance(0.6) else (inner_bool(), 'bool')
-			for _ in range(r.randint(1, 2)):
+			for _ in range(r.randint(1, 3)):
+				if self.chance(0.3):
+					e = (f'({e[0]})', P_ATOM)  # redundant parentheses: a group as an operand
 				e, t = ctx_int(e) if t == 'int' else ctx_bool(e)
 			elems.append(self.wrap(e, P_TERN + 1) if t == 'int' else f'int({e[0]})')
 		ret = ('list', T_INT)
@@ -1115,8 +1251,12 @@ class ProgGen:
 			self.gen_func(entry=(i >= nfun - 2) or self.chance(0.3))
 		if self.chance(0.4) and self.on('operand-probe'):
 			self.gen_probe_func()
-		if self.chance(0.3) and self.on('generic-class'):
-			self.gen_generic()
+		if self.chance(self.p_generic) and self.on('generic-class'):
+			g = self.gen_generic_class()
+			if not self.generic_class_only:
+				self.gen_generic_func(g)
+		if self.chance(0.4) and self.on('container-probe'):
+			self.gen_container_func()
 		header = ['from enum import Enum'] if self.enums else []
 		if self.generics:
 			header.append('from typing import Generic, TypeVar')
@@ -1146,26 +1286,68 @@ def gen_program(rnd, exclude: set | None = None, size: int = 2) -> dict:
 	return ProgGen(rnd, exclude, size).program()
 
 
-def gen_two_modules(rnd, exclude: set | None = None, name_a: str = 'mod_a', name_b: str = 'mod_b') -> dict:
-	"""Module A (classes, enum, functions) and module B that imports A's definitions and uses them."""
+def gen_two_modules(rnd, exclude: set | None = None, name_a: str = 'mod_a', name_b: str = 'mod_b', p_generic: float = 0.3, name_c: str | None = None) -> dict:
+	"""Module A (classes, enum, functions, generic class, module-level variables) and module B that imports A's definitions and uses them.
+	With name_c a second, independent importer C of A is generated and A only *defines* its generic class."""
 	ga = ProgGen(rnd, exclude, size=1)
+	ga.p_generic = p_generic
+	ga.generic_class_only = name_c is not None
 	pa = ga.program()
-	gb = ProgGen(rnd, exclude, size=2)
-	gb.n = ga.n + 100
-	gb.classes = dict(ga.classes)
-	gb.enums = dict(ga.enums)
-	gb.funcs = list(ga.funcs)
-	imported = sorted(ga.classes) + sorted(ga.enums) + [f[0] for f in ga.funcs]
-	nfun = rnd.randint(2, 3)
-	start = len(gb.funcs)
-	if gb.chance(0.6) and gb.classes:
-		gb.gen_class(sorted(ga.classes)[-1])  # a class of B deriving from a class of A
-	for i in range(nfun):
-		gb.gen_func(entry=True)
-	header = ['from enum import Enum'] if gb.enums else []
-	if gb.uses_callable:
-		header.append('from collections.abc import Callable')
-	header.append(f'from {name_a} import {", ".join(imported)}')
-	source_b = '\n'.join(header + [''] + gb.lines) + '\n'
-	tags = sorted(set().union(*[f[3] for f in gb.funcs[start:]]) | getattr(gb, 'class_tags', set()))
-	return {'a': pa['source'], 'b': source_b, 'name_a': name_a, 'name_b': name_b, 'tags': tags, 'imported': imported}
+	imported = sorted(ga.classes) + sorted(ga.enums) + [f[0] for f in ga.funcs] + sorted(ga.generics)
+	# module-level variables of A (library types and classes of A itself), imported and read by the importers
+	consts: list[tuple[str, str]] = []
+	extra_a: list[str] = []
+	if ga.on('module-var'):
+		for i, (text, kind) in enumerate([(str(rnd.randint(1, 9)), 'int'), (py_lit(rnd.choice(['ab', 'x', ''])), 'str'), ('[1, 2]', 'list')]):
+			if rnd.random() < 0.6:
+				name = f'K{len(consts)}'
+				extra_a.append(f'{name}: {dict(int="int", str="str", list="list[int]")[kind]} = {text}' if rnd.random() < 0.5 else f'{name} = {text}')
+				consts.append((name, kind))
+		for cname in sorted(ga.classes):
+			if rnd.random() < 0.7:
+				args = ', '.join(py_lit(ga.sample_value(t)) for _, t in ga.classes[cname]['ctor'])
+				name = f'K{len(consts)}'
+				extra_a.append(f'{name}: {cname} = {cname}({args})' if rnd.random() < 0.5 else f'{name} = {cname}({args})')
+				consts.append((name, 'obj'))
+	source_a = pa['source'] + ('\n' + '\n'.join(extra_a) + '\n' if extra_a else '')
+	imported += [n for n, _ in consts]
+
+	def importer(offset: int) -> tuple[str, list[str]]:
+		gb = ProgGen(rnd, exclude, size=2)
+		gb.n = ga.n + offset
+		gb.classes = dict(ga.classes)
+		gb.enums = dict(ga.enums)
+		gb.funcs = list(ga.funcs)
+		gb.generics = dict(ga.generics)
+		nfun = rnd.randint(2, 3)
+		start = len(gb.funcs)
+		if gb.chance(0.6) and gb.classes:
+			gb.gen_class(sorted(ga.classes)[-1])  # a class of the importer deriving from a class of A
+		for i in range(nfun):
+			gb.gen_func(entry=True)
+		for g in sorted(ga.generics):
+			if gb.chance(0.8):
+				gb.gen_generic_func(g)  # other instantiations of A's generic class than A itself / the sibling importer uses first
+		if consts:
+			fname = f'f{len(gb.funcs)}'
+			pa_ = gb.fresh('a')
+			body = []
+			acc = [pa_]
+			for name, kind in consts:
+				v = gb.fresh()
+				body.append(f'\t{v} = {name}')
+				acc.append({'int': v, 'str': f'len({v})', 'list': f'len({v})', 'obj': '1'}[kind])
+			gb.lines += [f'def {fname}({pa_}: int) -> int:'] + body + [f'\treturn {" + ".join(acc)}', '']
+			gb.funcs.append((fname, [(pa_, T_INT, None)], T_INT, {'module-var'}))
+		header = ['from enum import Enum'] if gb.enums else []
+		if gb.uses_callable:
+			header.append('from collections.abc import Callable')
+		header.append(f'from {name_a} import {", ".join(imported)}')
+		return '\n'.join(header + [''] + gb.lines) + '\n', sorted(set().union(*[f[3] for f in gb.funcs[start:]]) | getattr(gb, 'class_tags', set()))
+
+	source_b, tags = importer(100)
+	out = {'a': source_a, 'b': source_b, 'name_a': name_a, 'name_b': name_b, 'tags': tags, 'imported': imported}
+	if name_c is not None:
+		out['c'], _ = importer(300)
+		out['name_c'] = name_c
+	return out
